@@ -700,7 +700,7 @@ pub fn run_block_c18(verif_seed: u64, block: u64, n_bases: usize, opts: &BlockOp
             sum.violations.push(RunFile {
                 format: "dst-replay v1".into(),
                 property: "C18".into(),
-                kind: "callback-invariant".into(),
+                kind: crate::degen::kind_of(&detail).into(),
                 engine: "baton".into(),
                 verif_seed,
                 block,
@@ -712,7 +712,7 @@ pub fn run_block_c18(verif_seed: u64, block: u64, n_bases: usize, opts: &BlockOp
                 build_case: None,
                 miri: None,
                 no_nest: false,
-                violation: Violation { property: "C18".into(), kind: "callback-invariant".into(), detail, thread: 0, op: 0, step: 0 },
+                violation: Violation { property: "C18".into(), kind: crate::degen::kind_of(&detail).into(), detail, thread: 0, op: 0, step: 0 },
             });
         }
     }
